@@ -333,7 +333,11 @@ func (in *Interp) convert(v Value, from, to types.Type) Value {
 			return in.wrap(x, to)
 		case FloatVal:
 			if x.T != nil {
-				in.fail("unsupported", "FP term to int")
+				// truncation toward zero of an exact dyadic value (non-negative values only)
+				if in.Branch(f.Lt(x.T, f.Int(0))) {
+					in.fail("unsupported", "negative symbolic float to int")
+				}
+				return in.wrap(f.Div(x.T, f.BigInt(x.Den)), to)
 			}
 			if !x.Known {
 				in.fail("unsupported", "unknown float to int")
